@@ -12,27 +12,83 @@ def c14_nontrivial(case, v):
     return bool(ins) and bool(rem) and bool(cp)
 
 
+def c14_extra(cases, verdicts):
+    """exploration outside the hypotheses: what the real insert_at does with an index that is not between the depot ends"""
+    n = ill = pan = 0
+    for c in cases:
+        v = verdicts.get(c["id"]) or {}
+        ex = v.get("explore") or {}
+        at = ex.get("reference_stopped_at")
+        if at is None:
+            continue
+        n += 1
+        if ex.get("well_formed_after_stop") is False:
+            ill += 1
+        impl = c.get("impl")
+        if isinstance(impl, list) and at < len(impl) and impl[at].get("r") == "panic":
+            pan += 1
+    return {"exploration_out_of_contract": {
+        "cases_leaving_the_insert_at_contract": n, "of_which_insert_at_panicked": pan,
+        "of_which_left_an_ill_formed_tour": ill,
+        "note": "index 0 / behind the end is accepted silently and displaces a depot end; an index beyond the vector panics "
+                "after the job set was updated; all of it is reproduced bit for bit by the mirror model (model == impl)"}}
+
+
 PROP = dict(
-    proof_modules=["VrpProofs.C14.Lists", "VrpProofs.C14.Assoc", "VrpProofs.C14.Tour", "VrpProofs.C14.Observe", "VrpProofs.C14.Registry", "VrpProofs.C14.RegistryNew", "VrpProofs.C14.RegistryRef", "VrpProofs.C14.Machine", "VrpProofs.C14"], model_modules=["VrpModel.C14"], drv="drv_c14", bin="c14",
-    nontrivial=c14_nontrivial,
+    proof_modules=["VrpProofs.C14.Lists", "VrpProofs.C14.Assoc", "VrpProofs.C14.Tour", "VrpProofs.C14.Observe",
+                   "VrpProofs.C14.Registry", "VrpProofs.C14.RegistryNew", "VrpProofs.C14.RegistryRef",
+                   "VrpProofs.C14.Machine", "VrpProofs.C14"],
+    model_modules=["VrpModel.C14"], drv="drv_c14", bin="c14",
+    nontrivial=c14_nontrivial, extra_evidence=c14_extra,
     rule="the operation sequence contains an insertion/acquisition (ins_at, ins_last, use, get_route), a removal/release "
-         "(rem, rem_at, free, free_route) and a copy (deep_copy or deep_slice); distinct = SHA-256 of the canonical case input",
+         "(rem, rem_at, free, free_route) and a copy (deep_copy or deep_slice); distinct = SHA-256 of the canonical case input. "
+         "Cases: random sequences (5-60 operations; thorough also 100-300) over 1-8 handles of the five container types in "
+         "worlds of 4-7 jobs (1-2 multi jobs with 2-3 sub-jobs) and 3-4 actors (open and closed shifts, 1-4 groups, now and then "
+         "an actor of another fleet); boundary indices (1, count+1), duplicates, absent jobs, depot/out-of-range positions for "
+         "remove_activity_at; plus EVERY word up to length 3 (thorough: 4, and 5 for the closed route context) over a 10-letter "
+         "tour alphabet and a 9-letter registry alphabet; a separate out-of-hypothesis stream calls insert_at with indices 0, "
+         "count+2, count+3",
     modelled="Tour::{new, insert_at, insert_last, remove, remove_activity_at, legs, jobs, index, index_last, contains, has_job, "
-             "has_jobs, start, end, end_idx, get, job_activities, job_activity_count, total, job_count, deep_copy}, "
-             "Activity::{has_same_job, retrieve_job}, Route::deep_copy, RouteContext::{new, deep_copy, route_mut, state_mut, "
-             "is_stale}, accept_route_state (stale flag, state reset), Registry::{new, use_actor, free_actor, all, available, "
-             "next, deep_copy, deep_slice}, RegistryContext::{new, get_route, use_route, free_route, next_route, resources, "
-             "deep_copy, deep_slice}",
-    traced="Fleet::new / ProblemBuilder (groups by the similarity key), Multi::roots binding of sub-jobs",
-    out_of_model="Tour::set_start/set_end called directly, activities_mut (crate-private), Activity schedule/place/commute "
-                 "payload, which actor of a group Registry::next picks (checked only to be an admissible choice)",
+             "has_jobs, start, end, end_idx, get, Index, activities_slice, all_activities, job_activities, job_activity_count, "
+             "total, job_count, deep_copy}, Activity::{has_same_job, retrieve_job, new_with_job}, Route::deep_copy, "
+             "RouteContext::{new, deep_copy, route, route_mut, state, state_mut, is_stale}, GoalContext::accept_route_state "
+             "(stale flag, state reset, a FeatureState writing a tour state), Registry::{new, use_actor, free_actor, all, "
+             "available, next, deep_copy, deep_slice}, RegistryContext::{new, get_route, use_route, free_route, next_route, "
+             "resources, deep_copy, deep_slice}, Fleet::new grouping by the similarity key",
+    traced="ProblemBuilder/Fleet::new (actors per vehicle shift, groups), MultiBuilder binding of sub-jobs to their multi job",
+    out_of_model="Tour::set_start/set_end called directly and the crate-private activities_mut; schedule/place/commute payload of "
+                 "activities; which actor of a group Registry::next picks (random + hash order: only checked to be an admissible "
+                 "choice, by the mirror relation and by the reference relation)",
     assumptions=["jobs and actors are identified by position in Problem.jobs / Fleet.actors (the code compares Arc addresses)",
-                 "insert_at is called with 1 <= index <= job_activity_count + 1 (explicit hypothesis; other indices are "
-                 "executed as an out-of-hypothesis stream and only compared with the mirror model)"],
+                 "insert_at is called with 1 <= index <= job_activity_count + 1 (explicit guard of the theorems; the code has "
+                 "no such check: index 0 or an index behind the end displaces a depot end, an index beyond the vector panics "
+                 "after the job set was updated - proved on witnesses, executed as the out-of-hypothesis stream)",
+                 "documented panics (remove_activity_at on a depot marker or out of range, inserting an activity without job) "
+                 "are part of the contract: result `panic`, nothing changes"],
 )
 
 META = dict(
-    text="Proof (Lean 4) + correspondence; see evidence.",
-    note=COMMON_NOTE,
-    technique="Lean 4 refinement proof (code-shaped model vs. reference model) + differential op-sequence correspondence with handles",
+    text="Proof (Lean 4), for operation sequences of ANY length over any number of handles. Code-shaped model: activity vector + "
+         "separately maintained job hash set + closed flag (Tour), group map + index map + vector (Registry), registry + prototype "
+         "index (RegistryContext), stale flag/state (RouteContext), deep copies as handles of a store. Reference model: a tour IS "
+         "the list of its job activities, a registry IS the registered actors and the set in use. Theorems: every guarded "
+         "insert_at/insert_last/remove/remove_activity_at sequence keeps Tour.WF (start first, end last iff closed, only job "
+         "activities in between, job set = jobs of the activities without duplicates, job_activity_count/total/job_count "
+         "consistent, legs = consecutive pairs + the open-end leg) and returns exactly the reference's results; every public "
+         "observer (legs via windows(1|2), counters, index/index_last, contains, job_activities, start/end) equals the reference "
+         "observer; Registry::new builds the fleet's groups and the container invariant holds in every reachable state; a vehicle "
+         "is offered exactly when registered and not in use; use_actor succeeds exactly for an offered vehicle; after use_actor(a) no "
+         "sequence without free_actor(a) lets use_actor(a) / get_route(a) succeed again; deep_slice keeps exactly the filtered "
+         "actors (a filtered-out actor cannot be freed back in); get_route hands out the accepted empty prototype of that actor; "
+         "the whole handle machine refines the reference machine (same results, same observations through every handle) and an "
+         "operation changes only the handles it names (copies are equal when made, independent afterwards). Witness theorems: "
+         "outside the index guard insert_at breaks WF. Tie: differential run of the real Tour/Route/RouteContext/Registry/"
+         "RegistryContext against the model after EVERY operation for ALL live handles, plus the reference simulation and the "
+         "declarative well-formedness predicate evaluated on the implementation's own observations.",
+    note=COMMON_NOTE + " Out of model: set_start/set_end called directly, activity payload, the random choice inside Registry::next "
+                       "(checked for admissibility only).",
+    technique="Lean 4 refinement proof (code-shaped containers vs. reference model, induction over operation sequences) + "
+              "differential op-sequence correspondence with handles on the real containers",
 )
+
+CLAIMED = True
